@@ -47,6 +47,8 @@ class Contract:
         self.key = key
         self.props = tuple(props)
         self.params = []            # [(name, Kind | ObjSpec)]
+        self.free = []              # free variables of a nested function (closure): [(name, Kind)]
+        self.globals = []           # module globals read by the function: [(name, Kind)]
         self.locals = {}            # local name -> Kind
         self._requires = []
         self._ensures = []          # (fn, props)
